@@ -107,6 +107,8 @@ class Prop:
         quick = tier == "quick"
         for c in mut.CORPUS + CORPUS:
             yield dict(kind="hist", univ=c["univ"], ops=c["ops"], corpus=c["id"])
+        for h in M.late_collision_hists():
+            yield dict(kind="hist", univ=h["univ"], ops=h["ops"], label="late-collision")
         for c in RAW_CORPUS:
             yield dict(kind="probe", univ=c["univ"], setup=c["setup"], typed=c["typed"], only=c["only"], corpus=c["id"], label="corpus " + c["id"])
         # (b) invalid arguments
@@ -147,7 +149,8 @@ class Prop:
                                 fa, _ = M.fault_alts(univ, setup, ["sort", 0, p, keyfn or {"tbl": {}}, rev, deep])
                                 alts += fa
                     verds = [{}, {str(i): ["F", "T", "skip_keep", "select", "F", "stop"][i % 6] for i in ids},
-                             {str(i): ["F", "F", "T"][i % 3] for i in ids}]
+                             {str(i): ["F", "F", "T"][i % 3] for i in ids}, {str(i): ["skip_keep", "T"][i % 2] for i in ids},
+                             {str(i): ["T", "skip_keep", "F", "skip"][i % 4] for i in ids}]
                     for vd in verds:
                         fa, _ = M.fault_alts(univ, setup, ["filter", 0, p, vd])
                         alts += fa
